@@ -28,6 +28,27 @@ def poly_supplier(x, y, coeffs=(1.0, 0.5, 0.25)):
     return lambda t: c0 + c1 * t + c2 * t * t
 
 
+class _MeanLevel:
+    """a callable sampling function object that is FALSY (its __len__ is 0, like a numpy.poly1d of order 0)"""
+
+    def __init__(self, level):
+        self.level = level
+
+    def __len__(self):
+        return 0
+
+    def __call__(self, t):
+        return self.level + 0.0 * np.asarray(t, dtype=float)
+
+
+def falsy_supplier(x, y):
+    return _MeanLevel(float(np.mean(y)))
+
+
+def poly1d_supplier(x, y):
+    return np.poly1d(np.polyfit(x, y, 0))
+
+
 def gen_series(rng, m, ties=True, integer=False):
     x = rng.increasing(m, jitter=(not integer and rng.random() < 0.2))
     if integer:
@@ -70,7 +91,8 @@ def gen_case(rng, strategies=ALL, max_m=20, max_n=24, integer_ok=True):
     integer = integer_ok and rng.random() < 0.2
     x, y = gen_series(rng, m, integer=integer)
     c = {"strategy": s, "n": n, "x": [str(v) for v in x], "y": [str(v) for v in y], "int_x": integer,
-         "objhist": rng.choice(["same", "same", "same", "scribble", "refill", "reenter"]),
+         "supplier": rng.choice(["poly", "poly", "falsy", "poly1d0"]),
+         "objhist": rng.choice(["same", "same", "same", "scribble", "refill", "reenter", "sibling", "clone"]),
          "call": rng.choice(["keyword", "keyword", "positional"]), "argrep": S.pick_argrep(rng, 0.7)}
     if s in WINDOW:
         if rng.random() < 0.6:
@@ -110,7 +132,7 @@ def kwargs_of(c):
         if "smooth" in c:
             kw["adaptive_smooth"] = c["smooth"]
     if c["strategy"] == "function":
-        kw["sampling_function_supplier"] = poly_supplier
+        kw["sampling_function_supplier"] = {"falsy": falsy_supplier, "poly1d0": poly1d_supplier}.get(c.get("supplier"), poly_supplier)
     return kw
 
 
@@ -152,12 +174,26 @@ def run_impl(c):
         xb, yb = np_x(c), S.arr(floats(y))
         # the strategy object keeps float64 arrays by reference: a buffer that is refilled in place between two
         # evaluations of ONE object must give the recreation of what the buffer holds at that moment
-        refill = oh == "refill" and xb.dtype == np.float64 and yb.dtype == np.float64
+        refill = (oh == "refill" and xb.dtype == np.float64 and yb.dtype == np.float64
+                  and xb.flags.writeable and yb.flags.writeable)
         if refill:
             xreal, yreal = xb.copy(), yb.copy()
             xb[...] = S.interior_decoy(xreal)
             yb[...] = S.interior_decoy(yreal)
         obj = construct(c, xb, yb)
+        if oh == "sibling" and s in WINDOW:
+            # another object of the same class with other parameters is built in between (a parameter sweep)
+            try:
+                cls_of(s)(xb.copy(), yb.copy(), n + 3, alpha=1.0)
+                cls_of(s)(xb.copy(), yb.copy(), max(2, n - 1), a=2)
+            except Exception:  # noqa
+                pass
+        if oh == "clone":
+            # the strategy object is duplicated (copy / deepcopy / pickle round trip) and the duplicate is evaluated
+            import copy
+            import pickle
+            ways = [copy.copy, copy.deepcopy] + ([lambda o: pickle.loads(pickle.dumps(o))] if s in WINDOW or s == "pc" else [])
+            obj = ways[(len(x) + n) % len(ways)](obj)
         if refill:
             try:
                 obj.rfa()
